@@ -43,6 +43,7 @@ type checkRunner struct {
 	checkedRcpts         []string
 	checkedRcptsPerCheck map[module.CheckState]map[string]struct{}
 	checkedRcptsLock     sync.Mutex
+	checkedBody          map[module.CheckState]struct{}
 
 	resolver      dns.Resolver
 	doDMARC       bool
@@ -60,6 +61,7 @@ func newCheckRunner(msgMeta *module.MsgMetadata, log log.Logger, r dns.Resolver)
 	return &checkRunner{
 		msgMeta:              msgMeta,
 		checkedRcptsPerCheck: map[module.CheckState]map[string]struct{}{},
+		checkedBody:          map[module.CheckState]struct{}{},
 		log:                  log,
 		resolver:             r,
 		dmarcVerify:          dmarc.NewVerifier(r),
@@ -282,7 +284,18 @@ func (cr *checkRunner) checkBody(ctx context.Context, checks []module.Check, hea
 		cr.didDMARCFetch = true
 	}
 
-	return cr.runAndMergeResults(states, func(s module.CheckState) module.CheckResult {
+	// The same check can be referenced from several blocks, it should see
+	// the message body only once.
+	pendingStates := make([]module.CheckState, 0, len(states))
+	for _, s := range states {
+		if _, ok := cr.checkedBody[s]; ok {
+			continue
+		}
+		cr.checkedBody[s] = struct{}{}
+		pendingStates = append(pendingStates, s)
+	}
+
+	return cr.runAndMergeResults(pendingStates, func(s module.CheckState) module.CheckResult {
 		res := s.CheckBody(ctx, header, body)
 		return res
 	})
